@@ -1,1 +1,23 @@
 //! Verification hooks (`--cfg rustrtc_verif` only): ice.
+
+/// ICE candidate priorities / private constructors / ICE server URI parser (C16).
+pub mod candidate {
+    use crate::transports::ice::{IceCandidate, IceCandidateType, TcpType};
+    use std::net::SocketAddr;
+
+    pub fn priority_for(typ: IceCandidateType, component: u16) -> u32 {
+        IceCandidate::verif_priority_for(typ, component)
+    }
+    pub fn priority_for_tcp(typ: IceCandidateType, component: u16, tcp_type: TcpType) -> u32 {
+        IceCandidate::verif_priority_for_tcp(typ, component, tcp_type)
+    }
+    pub fn server_reflexive(base: SocketAddr, mapped: SocketAddr, component: u16) -> IceCandidate {
+        IceCandidate::verif_server_reflexive(base, mapped, component)
+    }
+    pub fn relay(mapped: SocketAddr, component: u16, transport: &str) -> IceCandidate {
+        IceCandidate::verif_relay(mapped, component, transport)
+    }
+    pub fn parse_ice_server_uri(input: &str) -> Result<(String, String, u16, String), String> {
+        crate::transports::ice::IceServerUri::verif_parse(input)
+    }
+}
